@@ -27,7 +27,8 @@ pub enum A {
 
 pub struct X {
     stream: bool,
-    start_err: bool,
+    /// which start fails (0 = the first, 1 = the start of the first restart)
+    start_err: Option<usize>,
 }
 
 fn to_op(a: A, id: u32) -> Op {
@@ -143,7 +144,8 @@ fn oracle(s: &ProgScene<X>, t: &Trace) -> Vec<Violation> {
     }
     // graceful end: the task ended and nothing failed -> the word ends with [finished] stopped
     if let Some((_, cancelled)) = term {
-        if s.extra.start_err {
+        let failed_start_reached = s.extra.start_err.is_some_and(|n| started_per_inc.len() > n);
+        if s.extra.start_err == Some(0) {
             if word.iter().any(|w| matches!(w, W::In(cb, _) if !matches!(cb, Cb::Started))) {
                 v("start-failure", format!("C03/{kind}/callback-after-failed-start"), "a callback ran although started() returned an error".into());
             }
@@ -152,6 +154,19 @@ fn oracle(s: &ProgScene<X>, t: &Trace) -> Vec<Violation> {
                 if let Some(Op::Await(_)) = s.clients.get(o.c as usize).and_then(|cs| cs.ops.get(o.i as usize)) {
                     if o.ok() {
                         v("start-failure", format!("C03/{kind}/await-ok-after-failed-start"), "address resolved Ok although started() failed".into());
+                    }
+                }
+            }
+        } else if failed_start_reached {
+            // a later start failed: nothing may run after it (the automaton above flags handlers
+            // and stopped() in the StartFailed state), and the actor ends as failed
+            if st != St::StartFailed {
+                v("start-failure", format!("C03/{kind}/failed-restart-not-final"), format!("start #{:?} failed but the actor went on to state {st:?}", s.extra.start_err));
+            }
+            for o in &an.ops {
+                if let Some(Op::Await(_)) = s.clients.get(o.c as usize).and_then(|cs| cs.ops.get(o.i as usize)) {
+                    if o.ok() {
+                        v("start-failure", format!("C03/{kind}/await-ok-after-failed-restart"), "address resolved Ok although started() failed on restart".into());
                     }
                 }
             }
@@ -170,7 +185,7 @@ fn oracle(s: &ProgScene<X>, t: &Trace) -> Vec<Violation> {
 }
 
 #[allow(clippy::too_many_arguments)]
-fn make_case(progs: &[Vec<A>], spawn: SpawnCfg, attach: Attach, start_err: bool, tick: bool, owner: bool) -> Case {
+fn make_case(progs: &[Vec<A>], spawn: SpawnCfg, attach: Attach, start_err: Option<usize>, tick: bool, owner: bool) -> Case {
     let mut clients = vec![];
     for (c, p) in progs.iter().enumerate() {
         let ops: Vec<Op> = p.iter().enumerate().map(|(i, a)| to_op(*a, msg_id(c, i))).collect();
@@ -182,11 +197,17 @@ fn make_case(progs: &[Vec<A>], spawn: SpawnCfg, attach: Attach, start_err: bool,
     }
     // when the start fails the address must resolve with an error: a watcher awaits it (in the
     // other scenes an awaiter would itself keep the actor alive; they end by stop or last drop)
-    if start_err {
+    if start_err == Some(0) {
         clients.push(ClientSpec { init: vec![HInit::Addr], ops: vec![Op::Await(H::Addr(0))] });
     }
+    if start_err == Some(1) {
+        // the restart may never be processed (a stop can win): the watcher stops the actor at
+        // t=2 (rejected if it already failed) and awaits it
+        clients.push(ClientSpec { init: vec![HInit::Addr], ops: vec![Op::Sleep(2), Op::Stop(H::Addr(0)), Op::Await(H::Addr(0))] });
+    }
     let mut role = RoleCfg::default();
-    if start_err {
+    if let Some(n) = start_err {
+        role.started = vec![StartBeh::Ok; n];
         role.started.push(StartBeh::Err);
     }
     if tick {
@@ -194,7 +215,7 @@ fn make_case(progs: &[Vec<A>], spawn: SpawnCfg, attach: Attach, start_err: bool,
     }
     let stream = attach != Attach::None;
     let desc = format!(
-        "lifecycle {:?} strat={:?} mailbox={} attach={:?} start_err={} tick={} progs={}",
+        "lifecycle {:?} strat={:?} mailbox={} attach={:?} start_err={:?} tick={} progs={}",
         if stream { "stream" } else { "plain" },
         spawn.strat,
         spawn.mailbox.name(),
@@ -227,22 +248,37 @@ fn cases(tier: Tier) -> Vec<Case> {
     for &mb in mbs {
         for strat in [Strat::Default, Strat::Recreate, Strat::NonRestartable] {
             let spawn = SpawnCfg { mailbox: mb, strat, timeout: None };
-            for start_err in [false, true] {
+            for start_err in [None, Some(0), Some(1)] {
                 for tick in [false, true] {
                     for n in 1..=2 {
                         for p in seqs(&alpha, n) {
+                            // a failing restart needs a restartable strategy and a restart request
+                            if start_err == Some(1) && (strat == Strat::NonRestartable || !p.contains(&A::Restart)) {
+                                continue;
+                            }
                             v.push(make_case(&[p], spawn, Attach::None, start_err, tick, false));
                         }
                     }
                     if !tick {
                         for p in seqs(&alpha, 1) {
                             for q in seqs(&alpha, 1) {
+                                if start_err == Some(1) && (strat == Strat::NonRestartable || !(p.contains(&A::Restart) || q.contains(&A::Restart))) {
+                                    continue;
+                                }
                                 v.push(make_case(&[p.clone(), q], spawn, Attach::None, start_err, tick, false));
                             }
                         }
+                        // restart first, then traffic queued behind it
+                        if start_err == Some(1) && strat != Strat::NonRestartable {
+                            for q in seqs(&[A::Send, A::Call, A::CtxStop], 2) {
+                                v.push(make_case(&[vec![A::Restart, q[0], q[1]]], spawn, Attach::None, start_err, tick, false));
+                            }
+                        }
                         // consume by the owner, racing with a submitter
-                        for q in seqs(&[A::Send, A::Call, A::StopAddr], 1) {
-                            v.push(make_case(&[vec![A::Consume], q], spawn, Attach::None, start_err, tick, true));
+                        if start_err != Some(1) {
+                            for q in seqs(&[A::Send, A::Call, A::StopAddr], 1) {
+                                v.push(make_case(&[vec![A::Consume], q], spawn, Attach::None, start_err, tick, true));
+                            }
                         }
                     }
                 }
@@ -260,7 +296,7 @@ fn cases(tier: Tier) -> Vec<Case> {
             Attach::Stream { via, prefill: vec![], close: false },
         ];
         for attach in attaches {
-            for start_err in [false, true] {
+            for start_err in [None, Some(0)] {
                 let spawn = SpawnCfg::plain(Mailbox::U);
                 for n in 1..=2 {
                     for p in seqs(&salpha, n) {
